@@ -1333,10 +1333,15 @@ struct FGen {
     ent.label = "r0";
     base.label = "rbase";
     rec.label = "rrec";
+    // one recursion in three is unguarded (if (*) return ...; else return g(p +- 1)):
+    // the chain of entry values of the recursive function is unbounded
+    bool guarded_rec = !r.chance(1, 3);
+    bool upwards = !guarded_rec && r.coin();
     Stmt g1 = mk(Op::ASSUME);
     g1.c.kind = LinCst::LEQ;
     g1.c.e = LinExp::var(p); // p <= 0
-    base.stmts.push_back(g1);
+    if (guarded_rec)
+      base.stmts.push_back(g1);
     Stmt a1 = mk(Op::ASSIGN);
     a1.v = {o};
     a1.e = {r.coin() ? LinExp(constant()) : LinExp::var(p)};
@@ -1346,9 +1351,10 @@ struct FGen {
     g2.c.kind = LinCst::LEQ;
     g2.c.e = LinExp::var(p, -1); // 1 - p <= 0
     g2.c.e.cst = 1;
-    rec.stmts.push_back(g2);
+    if (guarded_rec)
+      rec.stmts.push_back(g2);
     Stmt dec = mk(Op::BINOP);
-    dec.k = "sub";
+    dec.k = upwards ? "add" : "sub";
     dec.v = {t, p};
     dec.n = {mpz_class(1)};
     rec.stmts.push_back(dec);
